@@ -23,6 +23,7 @@ type Style struct {
 	WithEnd         bool   // write an END line even without argument
 	AfterEnd        string // text after the END line (ignored by the standard)
 	Header          bool   // ;redcode first line
+	LongCommentPct  int    // chance that a comment is 4090..70000 bytes long
 }
 
 func (s *Style) pct(p int) bool { return p > 0 && s.R.Intn(100) < p }
@@ -97,6 +98,14 @@ func (s *Style) expr(e Expr) string {
 var commentWords = []string{"bomb", "scan", "loop", "ptr", "step", "gate", "clear", "imp", "launch", "decoy", "x1", "todo 2+2", "a,b", "(see below)"}
 
 func (s *Style) comment() string {
+	if s.LongCommentPct > 0 && s.R.Intn(100) < s.LongCommentPct {
+		// a comment longer than typical I/O buffers, ASCII or multi-byte
+		n := longLens[s.R.Intn(len(longLens))]
+		if s.R.Intn(2) == 0 {
+			return ";" + strings.Repeat("=", n)
+		}
+		return ";" + strings.Repeat("x", s.R.Intn(4)) + strings.Repeat("\u00e9", n/2)
+	}
 	return ";" + s.opt() + commentWords[s.R.Intn(len(commentWords))] + fmt.Sprint(s.R.Intn(100))
 }
 
@@ -235,15 +244,19 @@ func Render(p *Prog, s *Style) string {
 		emit(";assert " + s.expr(a))
 	}
 	renderItems(items, "")
+	endLabels := ""
+	for _, l := range p.EndLabels {
+		endLabels += label(l) + s.gap()
+	}
 	if p.EndArg != nil {
 		filler()
-		emit(trail(s.opt() + s.kw("end") + s.gap() + s.expr(p.EndArg)))
-	} else if s.WithEnd {
+		emit(trail(endLabels + s.opt() + s.kw("end") + s.gap() + s.expr(p.EndArg)))
+	} else if s.WithEnd || endLabels != "" {
 		filler()
-		emit(trail(s.opt() + s.kw("end")))
+		emit(trail(endLabels + s.opt() + s.kw("end")))
 	}
 	text := strings.Join(lines, "\n")
-	if (p.EndArg != nil || s.WithEnd) && s.AfterEnd != "" {
+	if (p.EndArg != nil || s.WithEnd || len(p.EndLabels) > 0) && s.AfterEnd != "" {
 		text += "\n" + s.AfterEnd
 	}
 	if !s.NoFinalNewline {
